@@ -89,7 +89,9 @@ def put_license_in_file(
     destination = Path(destination)
     destination.parent.mkdir(exist_ok=True)
 
-    if destination.exists():
+    # A dangling symbolic link does not 'exist', but the name is taken. Writing
+    # to it would create a file somewhere else.
+    if destination.exists() or destination.is_symlink():
         raise FileExistsError(
             errno.EEXIST, os.strerror(errno.EEXIST), str(destination)
         )
